@@ -5,12 +5,14 @@ func init() {
 		Decided: "error-code table equals the OCI table; settings dereferenced by handlers cannot be nil.", NotDecided: "panic freedom in general."})
 	registerProperty(&Property{ID: "C19", Rules: []string{"TB-FLAGS", "TB-DEFAULTS"},
 		Decided: "flag wiring and defaults.", NotDecided: "rate accounting."})
-	registerProperty(&Property{ID: "C04", Rules: []string{"TB-MEDIATYPE"}, Decided: "media type tables agree.", NotDecided: "-"})
+	registerProperty(&Property{ID: "C07", Rules: []string{"TS-REFERRER-CALL", "SH-SIBLING-REF", "TS-REFDEL"}, Decided: "x", NotDecided: "-"})
+	registerProperty(&Property{ID: "C04", Rules: []string{"TS-EXISTS", "TS-MT-CONSISTENT", "TS-BOUNDREAD", "TS-REFTAG", "TB-MEDIATYPE"}, Decided: "media type tables agree.", NotDecided: "-"})
 	registerProperty(&Property{ID: "C13", Rules: []string{"LK-GUARD", "LK-COPY", "TB-DEEP"}, Decided: "deep copies.", NotDecided: "-"})
 	registerProperty(&Property{ID: "C12", Rules: []string{"LK-ORDER", "LK-SELF", "LK-PAIR", "LK-HOLD", "LK-TOKEN", "LK-FLAG"}, Decided: "lock order.", NotDecided: "-"})
 	registerProperty(&Property{ID: "C11", Rules: []string{"LK-ATOMIC", "LK-RMW", "LK-COPY", "TB-DEEP"}, Decided: "atomicity.", NotDecided: "-"})
 	registerProperty(&Property{ID: "C08", Rules: []string{"LK-CTA", "TS-RANGE", "TS-CANCEL", "TS-REFUSE"}, Decided: "cta.", NotDecided: "-"})
-	registerProperty(&Property{ID: "C01", Rules: []string{"TS-VERIFY"}, Decided: "x", NotDecided: "-"})
+	registerProperty(&Property{ID: "C09", Rules: []string{"TS-CONTENT-FIRST"}, Decided: "x", NotDecided: "-"})
+	registerProperty(&Property{ID: "C01", Rules: []string{"TS-VERIFY", "TS-HASHBYTES"}, Decided: "x", NotDecided: "-"})
 	registerProperty(&Property{ID: "C02", Rules: []string{"TS-ACK"}, Decided: "x", NotDecided: "-"})
 	registerProperty(&Property{ID: "C14", Rules: []string{"TS-ROGUARD", "TB-ROUTE"}, Decided: "x", NotDecided: "-"})
 	registerProperty(&Property{ID: "C16", Rules: []string{"TB-RESERVED"}, Decided: "reserved names.", NotDecided: "-"})
